@@ -129,6 +129,7 @@ type Run struct {
 	poolID map[int64]int64 // pool connection id -> fake connection id (creation order, 1-based)
 
 	expectBg bool // the source releases a connection in the background when its creator gives up
+	dcClosed bool // DC.Close was called by the scheduler
 
 	hung       bool
 	hasXfer    bool // a pre-fix "xfer.send" step happened: the trace has no model counterpart
@@ -268,6 +269,12 @@ func NewRun(max int64, ncallers int, expectBg bool) *Run {
 				r.finish(g)
 				return
 			}
+			defer func() {
+				if p := recover(); p != nil {
+					r.fail("pool-panic", fmt.Sprintf("DC.Invoke of caller %d panicked: %v", g.idx, p))
+					r.finish(g)
+				}
+			}()
 			err := r.dc.Invoke(g.ctx, nil, nil)
 			r.mu.Lock()
 			if err == nil {
@@ -582,6 +589,11 @@ func (r *Run) observeC(check bool) obs {
 	}
 	b.WriteString(" p" + strings.Join(o.pcs, ";"))
 	b.WriteString(" c" + strings.Join(o.conns, ";"))
+	if sn.Closed {
+		b.WriteString(" z1")
+	} else {
+		b.WriteString(" z0")
+	}
 	o.summary = b.String()
 	return o
 }
@@ -638,10 +650,10 @@ func (c choice) String() string {
 type Weights struct{ Step, Ready, Die, Cancel, FinOK, FinErr, FinRetry int }
 
 // Budget bounds the environment's interference within one run.
-type Budget struct{ Cancel, Die, Retry int }
+type Budget struct{ Cancel, Die, Retry, Close int }
 
 func (r *Run) waitReady(g *G) bool {
-	if g.ctx.Err() != nil {
+	if g.ctx.Err() != nil || r.dcClosed {
 		return true
 	}
 	if pool.VerifC27ChanLen(g.ch) > 0 {
@@ -685,7 +697,7 @@ func (r *Run) enabled(w Weights, b *Budget) []choice {
 			out = append(out, choice{g, "go", "ck", i, w.Step})
 		case "acq.create":
 			c := r.conns[g.conn-1]
-			if c.isReady || r.connDead(g.conn) || g.ctx.Err() != nil {
+			if c.isReady || r.connDead(g.conn) || g.ctx.Err() != nil || r.dcClosed {
 				out = append(out, choice{g, "go", "cw", i, w.Step})
 			}
 		case "acq.wait":
@@ -713,6 +725,9 @@ func (r *Run) enabled(w Weights, b *Budget) []choice {
 			out = append(out, choice{nil, "", "ca", i, w.Cancel})
 		}
 	}
+	if !r.dcClosed && b.Close > 0 && !muHeld {
+		out = append(out, choice{nil, "", "cl", 0, w.Cancel})
+	}
 	for _, g := range r.gs {
 		if g.state != stYield {
 			continue
@@ -723,12 +738,12 @@ func (r *Run) enabled(w Weights, b *Budget) []choice {
 			if !c.isReady {
 				out = append(out, choice{g, "ready", "rd", g.idx - 1, w.Ready})
 			}
-			if !muHeld && b.Die > 0 {
-				out = append(out, choice{g, "die", "di", g.idx - 1, w.Die})
+			if !muHeld && (b.Die > 0 || r.dcClosed) {
+				out = append(out, choice{g, "die", "di", g.idx - 1, max(w.Die, 1)})
 			}
 		case gBg:
 			c := r.conns[g.idx-1]
-			if !muHeld && (c.isReady || r.connDead(int64(g.idx))) {
+			if !muHeld && (c.isReady || r.connDead(int64(g.idx)) || r.dcClosed) {
 				out = append(out, choice{g, "go", "bg", g.idx - 1, w.Step})
 			}
 		}
@@ -807,7 +822,7 @@ func (r *Run) monitor(o obs, last string) {
 		if len(hs) > 1 {
 			r.fail("shared-conn", fmt.Sprintf("after %s: connection %d has %d holders %v | %s", last, c.id-1, len(hs), hs, o.summary))
 		}
-		if len(hs) == 0 && !r.connDead(c.id) && !r.leaked[c.id] {
+		if len(hs) == 0 && !r.connDead(c.id) && !r.leaked[c.id] && !r.dcClosed {
 			r.leaked[c.id] = true
 			r.fail("leak-after-"+kind, fmt.Sprintf("after %s: live counted connection %d is neither in use, idle, in transfer to a live waiter, nor being created | %s", last, c.id-1, o.summary))
 		}
@@ -817,7 +832,7 @@ func (r *Run) monitor(o obs, last string) {
 // served: a caller parked in the third acquire case whose select is not ready although an idle live
 // connection exists or a slot is free (the consequence clause of C28).
 func (r *Run) monitorServed(o obs, last string) {
-	if r.hasLeak() {
+	if r.hasLeak() || r.dcClosed {
 		return // already reported; a leaked slot trivially starves waiters
 	}
 	idle := false
